@@ -135,6 +135,13 @@ func (e *Engine) VerifyAction(m *Monitor, lit *ssa.Function) (r *FnRun) {
 	// the explicit panics in actions and in the via-function guard the protocol ("retire called twice",
 	// "transitioned to non-idle when already done", ...): they must be unreachable
 	shell.NoExplicitPanic = true
+	if len(m.Tracks) > 0 {
+		if shell == c {
+			cp := *c
+			shell = &cp
+		}
+		shell.Tracks = append(append([]Track{}, shell.Tracks...), m.Tracks...)
+	}
 	r = e.NewRun(via, shell)
 	r.action = lit
 	r.monitor = m
